@@ -160,9 +160,38 @@ def c03(v, tier, seed):
     st = pdu.replay(v, ex, bind, exact, "C03", tier, rnd, publen=True)
     v.cov["evaluations"] += st["executed"]; v.cov["replayed_transitions"] = len(exact)
     v.sample({"tlc_transition": exact[len(exact) // 2]})
+    # the same transitions on exact-size heap objects under AddressSanitizer (header at offset 0 and 4 of the allocation): a guard page
+    # only sees an access that crosses a page; ASan's red zone sees the first byte behind the object at any alignment, reads included
+    st, sites = asan_heap_sweep(v, wd, bind, exact, "C03", tier, rnd)
+    v.cov["evaluations"] += st["executed"]; v.cov["asan_heap_executions"] = st["executed"]
     v.cov["rule"] = ("facts (published length, sizeof, payload offset per view) validated by FactsTrace; every Get/Set/Init/payload transition "
-                     "TLC enumerates is executed on a buffer of exactly the published header length placed against PROT_NONE pages")
+                     "TLC enumerates is executed on a buffer of exactly the published header length placed against PROT_NONE pages, and on "
+                     "exact-size heap objects (8-byte aligned and 4 mod 8) under AddressSanitizer")
     v.cov["distinct_nontrivial"] = len(exact)
+
+
+def asan_heap_sweep(v, wd, bind, vectors, pid, tier, rnd, publen=True):
+    """Replay on exact-size malloc'ed objects in a recoverable-ASan build; every ASan report whose stack passes through the
+    library is a violation keyed by the library site (the executor marks each command on stderr)."""
+    ex = Executor(build_exec(wd, "asanrec"), wd, env={"ASAN_OPTIONS": "halt_on_error=0:detect_leaks=0:allow_user_segv_handler=1:handle_segv=0:handle_sigbus=0:handle_sigfpe=0:print_summary=0"})
+    st = pdu.replay(v, ex, bind, vectors, pid, tier, rnd, publen=publen, places=[("H", 0), ("H", 4)], tag="[asan heap] ")
+    sites = {}
+    cur = ""
+    for blk in re.split(r"(?=##CMD )", ex.stderr):
+        m = re.match(r"##CMD (\S+) (\S+) (\S+) (\S+)", blk)
+        if not m or "ERROR: AddressSanitizer" not in blk: continue
+        kind = re.search(r"ERROR: AddressSanitizer: (\S+)", blk).group(1)
+        acc = re.search(r"(READ|WRITE) of size (\d+)", blk)
+        fr = re.search(r"#\d+ 0x[0-9a-f]+ in (\w+) ([^\s:]*/(?:src|include)/[^\s:]+):(\d+)", blk)
+        site = "%s %s" % (fr.group(1), os.path.basename(fr.group(2))) if fr else "?"
+        key = "asan %s %s %s" % (kind, acc.group(1).lower() if acc else "access", site)
+        if key in sites: sites[key]["count"] += 1; continue
+        where = re.search(r"0x[0-9a-f]+ is located (\d+ bytes (?:to the right of|after|to the left of|before|inside of)[^\n]*)", blk)
+        sites[key] = {"count": 1, "command": m.group(0), "where": where.group(1) if where else "", "report": blk[:1500]}
+    for key, d in sites.items():
+        v.violation(key, "AddressSanitizer: %s during '%s' on an exact-size heap header: %s (first of %d reports)" % (key, d["command"][6:], d["where"], d["count"]),
+                    {"command": d["command"], "report": d["report"]})
+    return st, sites
 
 
 @check("C04")
@@ -186,6 +215,12 @@ def c05(v, tier, seed):
     wd, ex, bind = setup(v)
     q = tier == "quick"
     small = ["CommonHeader", "Udp", "H264", "AcfCommon", "Gpc", "SensorBrief", "Mjpeg", "Ntscf", "Lin", "Sensor", "VssBrief", "Vss"]
+    # (0) the refinement mapping's premise: the whole state of the record is the PDU's memory.  A library object in a writable
+    #     section is state the specification has no variable for (results could depend on calls made long ago on other buffers,
+    #     beyond any history length a run can sample): validated as a fact, like C16's SharedCells = {}
+    syms = writable_symbols(wd)
+    pdu.validate_facts(v, wd, [{"e": "fact", "kind": "header_len", "view": "Can", "name": "AVTP_CAN_HEADER_LEN", "value": 16}] + syms, "C05")
+    v.cov["writable_library_symbols"] = [x["name"] for x in syms]
     # (a) exhaustive ordered pairs of operations: commutation, idempotence, RecordView
     run_hist(v, wd, ex, bind, "C05", rnd, "record", small if q else ALL_VIEWS, 2, 2, [1] if q else [0, 1, 5], 1,
              ["RecordView", "ReadsLastWritten"], name="GenHist/pairs")
@@ -275,7 +310,9 @@ def c06(v, tier, seed):
     lens = list(range(0, 65))
     for scn, ls, nbg in (("create", lens, 2 if q else 3), ("split", lens if not q else list(range(0, 13)) + [31, 32, 33, 63, 64], 1 if q else 2),
                          ("long", list(range(65, 2029, 1 if not q else 37)) + [2027, 2028], 1),
-                         ("create", [65, 100, 255, 256, 257, 1000, 2027, 2028] if q else [65, 66, 67, 100, 127, 128, 255, 256, 257, 511, 512, 1000, 1023, 1024, 2025, 2026, 2027, 2028], 1)):
+                         ("create", [65, 100, 255, 256, 257, 1000, 2027, 2028] if q else [65, 66, 67, 100, 127, 128, 255, 256, 257, 511, 512, 1000, 1023, 1024, 2025, 2026, 2027, 2028], 1),
+                         # prior contents = the builder's own result with one header bit flipped / stale pad bytes / one payload bit flipped
+                         ("near", list(range(0, 10)) + [63, 64] if q else list(range(0, 65)), 1 if q else 2)):
         kinds = ["full", "brief"]
         if scn == "long": ls = [x for x in ls if x <= 2028]
         res = run_tlc("GenCan", can.cfg(scn, ls, kinds, nbg), wd)
@@ -336,6 +373,8 @@ def c07(v, tier, seed):
     vss_gen(v, wd, ex, "C07", rnd, "encode", [0, 1, 2, 3], vss.ALL_TYPES + vss.RESERVED_TYPES, 1 if q else 3)
     if not q:
         vss_gen(v, wd, ex, "C07", rnd, "encode", [0, 1], [11, 128, 130, 134, 138, 139], 1, big=True, name="GenVss/encode-max-lengths", heap="16g")
+    # prior contents = the same call's own result with one bit of the path / value / length prefix flipped
+    vss_gen(v, wd, ex, "C07", rnd, "near", [0, 1], vss.ALL_TYPES, 1 if q else 2, name="GenVss/near")
     vss_traces(v, wd, ex, "C07", rnd, 8000 if q else 200000, ("putpath", "putdata"), 6 if q else 16, "random-encodes")
     v.cov["rule"] = ("TLC: 4 address modes x 24 datatypes + reserved codes x paths {0,1,4,13 bytes incl. NUL; 3 static ids} x per-type value patterns "
                      "(extremes, distinct bytes, NaN payload, sign bit; 0,1,2,3,7 elements) x backgrounds x 2 buffer offsets: putpath then putdata replayed on "
@@ -382,6 +421,9 @@ def c09(v, tier, seed):
     q = tier == "quick"
     lens = list(range(12, 2045)) if not q else sorted(set(list(range(12, 140)) + list(range(140, 2045, 23)) + [1020, 1021, 1022, 1023, 1024, 1025, 2041, 2042, 2043, 2044]))
     vss_gen(v, wd, ex, "C09", rnd, "pad", [0], [0], 2 if q else 3, lens=lens)
+    # finalising an already finalised message whose pad bytes are stale / whose first quadlet is one bit off
+    nl = sorted(set(list(range(12, 34)) + [1022, 2043])) if q else [x for x in lens if x < 300 or x > 2030]
+    vss_gen(v, wd, ex, "C09", rnd, "nearpad", [0], [0], 1 if q else 2, lens=nl, name="GenVss/nearpad")
     vss_traces(v, wd, ex, "C09", rnd, 4000 if q else 80000, ("pad",), 4 if q else 16, "random-pads")
     # the length accessors carry all 512 values: dedicated + generic, through the PduStore machinery
     res = run_tlc("GenLen512", "SPECIFICATION GSpec\nCONSTANT Buf = {1}\nCONSTRAINT Emit\nINVARIANT ReadBack\nCHECK_DEADLOCK FALSE\n", wd)
@@ -575,6 +617,8 @@ def c15(v, tier, seed):
     with cf.ThreadPoolExecutor(max_workers=8) as pool:
         exes = dict(zip(variants + ["align"], pool.map(lambda x: build_exec(wd, x), variants + ["align"])))
     places = [("S", o) for o in range(8)]
+    # builders and codec also read a source object (payload, path, value): every combination of (PDU address mod 4, source address mod 4)
+    places2 = [("S", o + 100 * s_) for o in range(8) for s_ in (range(4) if o < 4 else (0,))]
     bind = None
     def sweep(name):
         nonlocal bind
@@ -584,8 +628,8 @@ def c15(v, tier, seed):
         tag = "[%s] " % name
         n += pdu.replay(v, ex, bind, sets["pdu"], "C15", tier, rnd, places=places, tag=tag)["executed"]
         n += hostx.raw_replay(v, ex, sets["raw"], rnd, "build=%s" % name if False else "native", places=places)["executed"]
-        n += can.replay(v, ex, sets["can"], rnd, places=places, tag=tag)["executed"]
-        n += vss.replay(v, ex, sets["vss"], rnd, places=places, tag=tag)["executed"]
+        n += can.replay(v, ex, sets["can"], rnd, places=places2, tag=tag)["executed"]
+        n += vss.replay(v, ex, sets["vss"], rnd, places=places2, tag=tag)["executed"]
         return n, ex.stderr
     total = 0
     for name in variants:
@@ -603,7 +647,7 @@ def c15(v, tier, seed):
     v.cov["builds"] = variants + ["align"]
     v.sample({"tlc_transition": sets["can"][0], "placements": places})
     v.cov["rule"] = ("TLC-generated transitions (header accessors and initialisers, raw descriptors, CAN builders, VSS codec and finalisation) replayed with the PDU at "
-                     "address offsets 0..7 (relative to a page) under %d compiler/optimisation builds: every result must equal the address-free prediction of the "
+                     "address offsets 0..7 (relative to a page; for builders and codec also every source-object alignment mod 4) under %d compiler/optimisation builds: every result must equal the address-free prediction of the "
                      "specification; the same under clang -fsanitize=alignment, where each misaligned typed access is reported" % len(variants))
     v.cov["distinct_nontrivial"] = v.cov["replayed_transitions"]
 
@@ -676,7 +720,7 @@ def c16(v, tier, seed):
         lines.append("T %d" % t)
         views = [rnd.choice(ALL_VIEWS) for _ in range(4)]
         for s_ in range(4):
-            m = pdu.rand_bytes(rnd, L[views[s_]] + 4)
+            m = pdu.rand_bytes(rnd, L[views[s_]])          # exactly the header: the next byte belongs to another thread's PDU
             lines.append("L %d %s" % (s_, hexs(m))); evs[t].append({"e": "load", "buf": s_, "base": 0, "mem": m})
         i = 0
         while i < per:
@@ -770,16 +814,35 @@ def c16(v, tier, seed):
     v.assumptions.append("the universal claim over schedules rests on SharedCells = {} (structural fact checked on the objects) plus readers not writing (C01 read-only placement); the stress run samples schedules")
 
 
-def tunnel_cfg(tscf, udp, fd, count, npackets=None, lens=None):
+def tunnel_cfg(tscf, udp, fd, count, npackets=None, lens=None, caplens=()):
     t = "CONSTANTS\n  Buf = {1}\n  Tscf = %d\n  Udp = %d\n  Fd = %d\n  Count = %d\n" % (tscf, udp, fd, count)
     if npackets is not None:
+        t += "  CapSet = {%s}\n" % ", ".join(str(100 * (j + 1) + l) for j, l in enumerate(caplens))
         return "SPECIFICATION GSpec\n" + t + "  NPackets = %d\n  Lens = {%s}\nCONSTRAINT Emit\nINVARIANT RefTransparent\nCHECK_DEADLOCK FALSE\n" % (npackets, ", ".join(map(str, lens)))
     return "SPECIFICATION TSpec\n" + t + "INVARIANT Transparent\nINVARIANT Quiescent\nPOSTCONDITION TraceAccepted\nCHECK_DEADLOCK FALSE\n"
+
+
+def capacity_lens(tscf, udp, fd, target):
+    """data lengths of a frame sequence whose packet is exactly <target> bytes long (largest messages first)"""
+    room = target - (4 if udp else 0) - (24 if tscf else 12)
+    sizes = list(range(80, 12, -4)) if fd else [24, 20, 16]
+    best = {0: []}
+    for tot in range(4, room + 1, 4):
+        for sz in sizes:
+            if tot - sz in best:
+                best[tot] = best[tot - sz] + [sz]; break
+    out = []
+    for i, sz in enumerate(best[room]):
+        ln = sz - 16
+        if ln > 0 and i % 3 == 1: ln -= 1            # some messages with pad bytes
+        out.append(ln)
+    return out
 
 
 def tunnel_key(ev_scn, stage):
     fs = ev_scn["frames"]
     feats = []
+    if len(fs) > 8: feats.append("full-size-packet")
     if any(f["rtr"] for f in fs): feats.append("rtr")
     if any(f["esi"] for f in fs): feats.append("esi")
     if any(f["eff"] and from64([0] * 4 + f["id"]) <= 0x7FF for f in fs): feats.append("eff-with-11bit-id")
@@ -795,12 +858,27 @@ def c19(v, tier, seed):
     q = tier == "quick"
     talker = xprog.build_xh(wd, "can-talker"); listener = xprog.build_xh(wd, "can-listener")
     modes = [(t, u, f, c) for t in (0, 1) for u in (0, 1) for f in (0, 1) for c in ((1, 2) if q else (1, 2, 3))]
+    # packets filled up to the 1500-byte limit of the example programs (and just below): one prescribed scenario each
+    caps = {}
+    for t in (0, 1):
+        for u in (0, 1):
+            for f in (0, 1):
+                for target in ((1500, 1496) if q else (1500, 1496, 1492, 1480)):
+                    cl = capacity_lens(t, u, f, target)
+                    caps[(t, u, f, len(cl) + 1000 * (1500 - target))] = cl
+    modes += list(caps)
     total = 0
     shard_jobs = []
     import concurrent.futures as cf, threading
     lock = threading.Lock()
     def run_mode(mode):
         (tscf, udp, fd, count) = mode
+        if mode in caps:
+            count = count % 1000
+            res = run_tlc("GenTunnel", tunnel_cfg(tscf, udp, fd, count, npackets=1, lens=[0], caplens=caps[mode]), wd, workers=1, heap="3g")
+            with lock: v.add_tlc("GenTunnel tscf=%d udp=%d fd=%d full-size packet of %d frames" % (tscf, udp, fd, count), res)
+            if not res.ok: raise Infra("CanTunnel reference machine not transparent:\n" + (res.violation or "")[-1200:])
+            return run_scenarios((tscf, udp, fd, count), res.emitted, " packet=%d" % (1500 - mode[3] // 1000))
         lens = ([0, 3, 8] if q else [0, 1, 3, 4, 8]) if not fd else ([0, 12, 64] if q else [0, 1, 8, 12, 63, 64])
         if count == 3: lens = lens[:2]
         if count == 2 and not q: lens = lens[:3]
@@ -819,6 +897,9 @@ def c19(v, tier, seed):
         rr = random.Random(seed * 1000 + tscf * 8 + udp * 4 + fd * 2 + count)
         if q and len(scns) > 400:
             scns = rr.sample(scns, 400)
+        return run_scenarios(mode, scns)
+    def run_scenarios(mode, scns, label=""):
+        (tscf, udp, fd, count) = mode
         tl = ["T %d %d %d %d %s" % (tscf, udp, fd, count, " ".join(xprog.frame_bytes(f, fd).hex() for f in s["frames"])) for s in scns]
         tres, _ = xprog.run_xh(talker, tl)
         ll, meta = [], []
@@ -842,11 +923,11 @@ def c19(v, tier, seed):
             for i, p_ in enumerate(pk):
                 frames_out = [xprog.frame_parse(bytes.fromhex(x), fd) for x in r["outs"][i]]
                 evs.append({"e": "deliver", "packet": unhexs(p_), "frames": frames_out})
-        return mode, evs, scns
+        return mode, evs, scns, label
     with cf.ThreadPoolExecutor(max_workers=8) as pool:
-        for mode, evs, scns in pool.map(run_mode, modes):
+        for mode, evs, scns, label in pool.map(run_mode, modes):
             total += len(scns)
-            shard_jobs.append((mode, evs))
+            shard_jobs.append((mode, evs, label))
             if scns and mode == modes[0]: v.sample({"scenario": scns[0]})
     # validate every mode's recorded runs with TunnelTrace (constants = the mode)
     def resume(evs, idx):
@@ -860,12 +941,12 @@ def c19(v, tier, seed):
             return tunnel_key(evs[j]["scn"], {"send": "talker-packet", "deliver": "listener-output"}.get(ev["e"], ev["e"]))
         return k
     def validate_mode(job):
-        mode, evs = job
+        mode, evs, label = job
         if not evs: return
         parts = pdu.shard_by(evs, lambda e: e["e"] == "reset", 2 if q else 4)
-        for part in parts:
+        for pi, part in enumerate(parts):
             vv = Verdict("C19", tier, seed, "model_checking")      # collect per thread, merge under the lock
-            pdu.validate_events(vv, wd, [part], "C19", "tunnel tscf=%d udp=%d fd=%d count=%d" % mode, module="TunnelTrace",
+            pdu.validate_events(vv, wd, [part], "C19", ("tunnel tscf=%d udp=%d fd=%d count=%d" % mode) + label + (" part=%d" % pi), module="TunnelTrace",
                                 cfg=tunnel_cfg(*mode), keyfn=keyfn_for(part), resume=resume, max_resume=4)
             with lock:
                 for k_, d_, r_ in vv.violations: v.violation(k_, d_, r_)
@@ -992,18 +1073,21 @@ def c20(v, tier, seed):
                 f.write(json.dumps({k: x.get(k, "") for k in ("h", "kind", "name", "body")}) + "\n")
     # (1) the model: every ordered pair (triples in the thorough tier)
     model = {}
-    for depth in ((2,) if q else (2, 3)):
-        res = run_tlc("Headers", "SPECIFICATION Spec\nCONSTANT Depth = %d\nCONSTRAINT Emit\nINVARIANT AloneClean\nCHECK_DEADLOCK FALSE\n" % depth, wd, env={"FACTS": fp}, heap="12g", timeout=2400)
+    for depth in (1, 2, 3):
+        res = run_tlc("Headers", "SPECIFICATION Spec\nCONSTANT Depth = %d\nCONSTRAINT Emit\nCHECK_DEADLOCK FALSE\n" % depth, wd, env={"FACTS": fp}, heap="12g", timeout=2400)
         v.add_tlc("Headers depth %d" % depth, res)
-        if not res.ok:
-            v.cov["model_note"] = "AloneClean violated: " + (res.violation or "")[-400:]
+        if not res.ok: raise Infra("Headers model failed: " + (res.violation or "")[-800:])
         for e in res.emitted: model[tuple(e["order"])] = e["bad"]
+    v.cov["model_alone_conflicts"] = {o[0]: sorted(set(b["name"] for b in bad)) for o, bad in model.items() if len(o) == 1 and bad}
     # (2) the compiler: meanings alone, then every ordered tuple as C99 and C++
     alone = headers.alone_values(wd, facts)
     v.cov["public_constants_and_layout_facts"] = sum(len(x) for x in alone.values())
-    orders = list(itertools.permutations(hdrs, 2))
+    orders = list(itertools.permutations(hdrs, 2)) + list(itertools.permutations(hdrs, 3))
     if not q:
-        orders += list(itertools.permutations(hdrs, 3))
+        # quadruples: those the model singles out (a conflict no contained triple has) and a seeded sample of the rest
+        rq = random.Random(seed)
+        allq = list(itertools.permutations(hdrs, 4))
+        orders += rq.sample(allq, min(len(allq), 40000))
     orders += [tuple(hdrs), tuple(reversed(hdrs))]
     jobs = [(o, lang) for o in orders for lang in ("c", "c++")]
     def one(job):
@@ -1021,6 +1105,10 @@ def c20(v, tier, seed):
         return (p + "*") if len(p) >= 6 else ",".join(names[:4])
     agree = disagree = 0
     reported = set()
+    # ordered sub-tuples (as subsequences) that already fail on their own: a longer tuple containing one is not reported again
+    bad_sub = {"c": set(), "c++": set()}
+    for (o, lang), ok, kinds in results:
+        if not ok and len(o) <= 3: bad_sub[lang].add(tuple(o))
     for (o, lang), ok, kinds in results:
         mb = model.get(tuple(o))
         if mb is not None:
@@ -1029,8 +1117,7 @@ def c20(v, tier, seed):
         if ok: continue
         # attribute the conflict to the smallest clashing pair inside the tuple (pairs are all checked themselves)
         if len(o) > 2:
-            pair_bad = any((not ok2) for (o2, l2), ok2, _ in results if len(o2) == 2 and l2 == lang and set(o2) <= set(o))
-            if pair_bad: continue
+            if any(sub in bad_sub[lang] for k_ in range(2, len(o)) for sub in itertools.combinations(o, k_)): continue
         names = []
         for k_ in kinds:
             m = re.search(r"(AVTP_\w+|Avtp_\w+|avtp_\w+|struct \w+|sizeof\([^)]*\)|offsetof\([^)]*\))", k_)
@@ -1047,10 +1134,10 @@ def c20(v, tier, seed):
     v.sample({"order": list(orders[0]), "model_conflicts": model.get(tuple(orders[0]), []), "compiler": "ok" if results[0][1] else results[0][2][:3]})
     v.cov["distinct_nontrivial"] = len(orders)
     v.cov["exhaustive"] = True
-    v.cov["rule"] = ("declaration facts scanned from the 26 public headers of the current tree; TLC explores every ordered %s of top-level includes in the Headers model "
+    v.cov["rule"] = ("declaration facts (incl. uses of public macros) scanned from the 26 public headers of the current tree; TLC explores every ordered %s of top-level includes in the Headers model "
                      "(macro / identifier / tag environments, #pragma pack depth) and prints the predicted conflicts; every ordered pair%s and the all-headers unit in both orders "
                      "is compiled as C99 and C++ with static assertions on %d public constants, sizes and member offsets (their stand-alone values)" % (
-                         "pair" if q else "pair and triple", "" if q else " and triple", v.cov["public_constants_and_layout_facts"]))
+                         "pair and triple", " and triple" + ("" if q else " and 40000 sampled quadruples"), v.cov["public_constants_and_layout_facts"]))
     depth = 2 if q else 3
     v.assumptions.append("the compiler's verdict is the oracle; the model contributes the enumeration and the explanation (agreement counted in model_vs_compiler)")
 
